@@ -270,12 +270,11 @@ theorem pres_markDone (w : World) (o : Obj) (f : St → Res) (hf : Pres w f) : P
     exact ⟨a, fun hi => inv_done w _ _ (b hi)⟩
 
 /-- the three ways through the optional recursive call -/
-theorem preResolve_st (pre swallows : Bool) (k : Kind) (o : Obj) (r : Unit → Res) (s2 : St) (cont : St → Res) (s' : St)
-    (h : (preResolve pre swallows k o r s2 cont).st? = some s') :
+theorem preResolve_st (pre : Bool) (r : Unit → Res) (s2 : St) (cont : St → Res) (s' : St)
+    (h : (preResolve pre r s2 cont).st? = some s') :
     (pre = false ∧ (cont s2).st? = some s') ∨
     (pre = true ∧ ∃ s3, r () = .ok s3 ∧ (cont s3).st? = some s') ∨
-    (pre = true ∧ ∃ e s3, r () = .err e s3 ∧
-      (s' = s3 ∨ s' = { s3 with nswallow := s3.nswallow + 1, done := s3.done ++ [o] })) := by
+    (pre = true ∧ ∃ e, r () = .err e s') := by
   unfold preResolve at h
   cases pre with
   | false => exact Or.inl ⟨rfl, by simpa using h⟩
@@ -285,14 +284,8 @@ theorem preResolve_st (pre swallows : Bool) (k : Kind) (o : Obj) (r : Unit → R
     | ok s3 => simp only [hr] at h; exact Or.inr (Or.inl ⟨rfl, s3, rfl, h⟩)
     | outOfFuel => simp [hr, Res.st?] at h
     | err e s3 =>
-      refine Or.inr (Or.inr ⟨rfl, e, s3, rfl, ?_⟩)
-      cases e with
-      | none => simp only [hr, Res.st?, Option.some.injEq] at h; exact Or.inl h.symm
-      | some k' =>
-        simp only [hr] at h
-        split at h
-        · simp only [markDone, Res.st?, Option.some.injEq] at h; exact Or.inr h.symm
-        · simp only [Res.st?, Option.some.injEq] at h; exact Or.inl h.symm
+      simp only [hr, Res.st?, Option.some.injEq] at h; subst h
+      exact Or.inr (Or.inr ⟨rfl, e, rfl⟩)
 
 /-- Invariant preservation of the whole resolution, by induction on fuel. -/
 theorem resolve_pres (w : World) (hC : CopyOK w) : ∀ fuel cx o, Pres w (resolve w fuel cx o) := by
@@ -399,7 +392,7 @@ theorem resolve_pres (w : World) (hC : CopyOK w) : ∀ fuel cx o, Pres w (resolv
                       rcases hs' with rfl | rfl
                       · exact hi4
                       · exact inv_done w _ _ hi4
-                    rcases preResolve_st _ _ _ _ _ _ _ _ h with ⟨_, hc⟩ | ⟨_, s3, hres, hc⟩ | ⟨_, e, s3, hres, hs3⟩
+                    rcases preResolve_st _ _ _ _ _ h with ⟨_, hc⟩ | ⟨_, s3, hres, hc⟩ | ⟨_, e, hres⟩
                     · exact cont s2 id id hc
                     · have hI := ih cx' tgt s2 s3 (by simp [hres, Res.st?])
                       have hq3 : Quiet s3 := by
@@ -407,14 +400,8 @@ theorem resolve_pres (w : World) (hC : CopyOK w) : ∀ fuel cx o, Pres w (resolv
                         have hq4 : Quiet s4 := by rcases hs' with rfl | rfl <;> exact hfl
                         exact (finish_inv w _ (fun k => ih _ k) t _ o n (valueOf w tgt s3) s3 s4 hn hr hfin4 hq4).1
                       exact cont s3 (fun hi => (hI hq3).2 hi) (fun hq => (hI hq).1) hc
-                    · have hI := ih cx' tgt s2 s3 (by simp [hres, Res.st?])
-                      have hs3' : Quiet s3 ∧ (Inv w s3 → Inv w s') := by
-                        rcases hs3 with rfl | rfl
-                        · exact ⟨hfl, id⟩
-                        · exact ⟨hfl, fun hi => ⟨by simpa [Good] using hi.1, by simpa [PendingOK] using hi.2⟩⟩
-                      obtain ⟨q3, i3⟩ := hs3'
-                      obtain ⟨q2, i2⟩ := hI q3
-                      exact key' s2 hl q2 (fun _ hi => i3 (i2 hi))
+                    · obtain ⟨q2, i2⟩ := ih cx' tgt s2 s' (by simp [hres, Res.st?]) hfl
+                      exact key' s2 hl q2 (fun _ hi => i2 hi)
                   · simp only [ne_eq, hk, not_false_eq_true, if_true, Res.st?, Option.some.injEq] at h
                     exact exit2 h.symm
 
